@@ -313,6 +313,8 @@ Proof.
   - apply Forall_forall. intros M HM. apply in_map_iff in HM. destruct HM as [[k M0] [<- Hin]]. cbn [fst snd].
     apply div_cols_nn; [|apply scales_nn]. apply in_combine_r in Hin. rewrite Forall_forall in HF. apply HF; auto.
 Qed.
+Lemma tk_fin_inv b st : tk_inv st -> tk_inv (tk_fin Rops nrm b st).
+Proof. intros H. unfold tk_fin. destruct b; auto. apply tucker_normalize_inv; auto. Qed.
 Lemma tk_mu_mode_inv eps numf denf st mode : 0 < eps -> tk_inv st -> tk_inv (tk_mu_mode Rops eps numf denf st mode).
 Proof.
   intros He. destruct st as [core Fs]. intros [Hc HF]. unfold tk_mu_mode. split; cbn [fst snd] in *; auto.
@@ -331,9 +333,9 @@ Theorem non_negative_tucker_nonneg eps numf denf numc denc stop nm n_modes n cor
 Proof.
   intros He Hc HF out. change (tk_inv out). unfold out, non_negative_tucker. apply outer_loop_inv.
   - intros it s Hs. apply tk_mu_core_inv; auto. apply fold_left_inv; auto. intros; apply tk_mu_mode_inv; auto.
-  - auto.
-  - intros s Hs. destruct nm; auto. apply tucker_normalize_inv; auto.
-  - split; auto.
+  - intros; apply tk_fin_inv; auto.
+  - intros; apply tk_fin_inv; auto.
+  - apply tk_fin_inv. split; auto.
 Qed.
 Lemma initialize_tucker_nn_inv core raw : tk_inv (initialize_tucker_nn Rops core raw).
 Proof.
@@ -363,9 +365,9 @@ Theorem non_negative_tucker_hals_nonneg alg feps utm utu inner sps lr csp lin cu
 Proof.
   intros He Hc HF out. change (tk_inv out). unfold out, non_negative_tucker_hals. apply outer_loop_inv.
   - intros it s Hs. apply tk_hals_core_inv; auto. apply fold_left_inv; auto. intros; apply tk_hals_mode_inv; auto.
-  - auto.
-  - intros s Hs. destruct nm; auto. apply tucker_normalize_inv; auto.
-  - split; auto.
+  - intros; apply tk_fin_inv; auto.
+  - intros; apply tk_fin_inv; auto.
+  - apply tk_fin_inv. split; auto.
 Qed.
 
 (* ------------------------------------------------------------------ parafac2 *)
